@@ -169,7 +169,7 @@ def harness_dir():
     d = os.path.join(CACHE, 'harness' + tag)
     os.makedirs(os.path.join(d, 'src'), exist_ok=True)
     os.makedirs(os.path.join(d, '.cargo'), exist_ok=True)
-    for f in ('src/main.rs', 'src/enums.rs', 'Cargo.lock', '.cargo/config.toml'):
+    for f in ('src/main.rs', 'src/enums.rs', 'src/shape.rs', 'Cargo.lock', '.cargo/config.toml'):
         src = open(os.path.join(HARNESS_DIR, f)).read()
         dst = os.path.join(d, f)
         if not os.path.exists(dst) or open(dst).read() != src: open(dst, 'w').write(src)
